@@ -379,6 +379,7 @@ func genC16Real(p *Plan, r *RNG) {
 			}
 			if r.Chance(1, 4) {
 				o.At = g
+				o.A.N = len(p.Ops) + 2 // the number of the connect made for it (checked at run time)
 				add(o)
 				add(Op{Actor: pid, Kind: "peer_connect", At: gap(int64(r.Range(100, 3000)) * ms), A: OpArgs{Target: "c1", N: 0}})
 			} else {
@@ -389,6 +390,7 @@ func genC16Real(p *Plan, r *RNG) {
 				}
 				add(Op{Actor: pid, Kind: "peer_connect", At: g, A: OpArgs{Target: "c1", N: 0}})
 				o.At = gap(delta + 1)
+				o.A.N = len(p.Ops)
 				add(o)
 			}
 			nconn++
